@@ -34,9 +34,6 @@ package node
 //@ ghost var $restarts int
 //   $fsmSaves = writes of a round's dump so far
 //@ ghost var $fsmSaves int
-//   $roundsCreated = idle entries created (and stored) for round identifiers the store did not know
-//@ ghost var $roundsCreated int
-//@ ghost func roundStored(id string) bool
 //@ ghost var $vSender string
 //@ ghost var $vData bytesvalue
 //@ ghost var $vSig bytesvalue
@@ -74,12 +71,11 @@ package node
 //@   epilogue $sends = old($sends) + 1
 //@   epilogue $lastSent = messages
 
-// GetFSMInstance(id, true) may create and store an empty entry for a round id that was unknown; it never
-// changes an existing round (not counted as an effect on existing state).
+// GetFSMInstance(id, true) may create an empty round in memory for an id that was unknown; it stores nothing
+// (proved for the implementation: [C18.node.nocreate] in client/services/fsmservice) and never changes an existing round.
 //@ func (github.com/lidofinance/dc4bc/client/services/fsmservice.FSMService).GetFSMInstance
 //@   assumed
 //@   pure
-//@   epilogue $roundsCreated = ite(createIfMissing && result1 == nil && !roundStored(dkgRoundID), old($roundsCreated) + 1, old($roundsCreated))
 //@   ensures result1 == nil ==> result0 != nil && fresh(result0) && roundOf(result0) == dkgRoundID && (result0.dump != nil ==> result0.dump.Payload != nil)
 //@ func (github.com/lidofinance/dc4bc/client/modules/logger.Logger).Log
 //@   assumed
@@ -140,7 +136,7 @@ package node
 //@   prologue $mayWrite = (message.Event == "reinit_dkg")
 //@   prologue $initEvent = false
 //@   modifies *
-//@   modifies $vSender, $vData, $vSig, $vRound, $fx, $sends, $lastSent, $stored, $pend, $retired, $bufc, $bufWrites, $dos, $savedAtDo, $restarts, $fsmSaves, $roundsCreated
+//@   modifies $vSender, $vData, $vSig, $vRound, $fx, $sends, $lastSent, $stored, $pend, $retired, $bufc, $bufWrites, $dos, $savedAtDo, $restarts, $fsmSaves
 //@   epilogue $handledNext = message.Offset + 1
 //@   ensures unchanged("BaseNodeService.userName", "BaseNodeService.state", "BaseNodeService.storage", "BaseNodeService.ctx")
 //@   ensures[C09.skip.keep] s.SkipCommKeysVerification == old(s.SkipCommKeysVerification)
@@ -204,7 +200,7 @@ package node
 //@   requires s != nil
 //@   prologue $initEvent = (message.Event == "event_sig_proposal_init")
 //@   modifies *
-//@   modifies $mayWrite, $vSender, $vData, $vSig, $vRound, $fx, $sends, $lastSent, $dos, $savedAtDo, $restarts, $fsmSaves, $roundsCreated
+//@   modifies $mayWrite, $vSender, $vData, $vSig, $vRound, $fx, $sends, $lastSent, $dos, $savedAtDo, $restarts, $fsmSaves
 // the participant a request speaks for must be the participant registered under the sender's name (third Do: the event itself)
 // the automatic restart of a cancelled batch is saved before the event itself is applied, so that it survives
 // even if the event is then rejected
@@ -217,9 +213,6 @@ package node
 // each automatic restart taken before it): no intermediate state that accepts no board message ever reaches the store,
 // so a node killed between two writes never wakes up in one
 //@   ensures[C13.save.once] $fsmSaves - old($fsmSaves) <= 1 + ($restarts - old($restarts))
-// a refused message leaves no trace, not even an idle entry for a round the node had never seen (C18). This does NOT
-// hold on this tree: the round is fetched with createIfMissing=true before anything is verified (known finding D18)
-//@   ensures[C18.node.nocreate] result1 != nil ==> $roundsCreated == old($roundsCreated)
 // the message that wakes up a cancelled batch is not swallowed: after the automatic restart its own event is applied, too
 //@   ensures[C06.restart.continue,C07.restart.continue] result1 == nil && message.Event != "event_signing_restart" && $restarts > old($restarts) ==> $dos >= old($dos) + 2
 //@   ensures[C09.authorised] result1 == nil ==> $mayWrite || $initEvent
@@ -247,7 +240,7 @@ package node
 //@   requires s != nil
 //@   requires[C09.guard] $mayWrite
 //@   modifies *
-//@   modifies $mayWrite, $initEvent, $vSender, $vData, $vSig, $vRound, $fx, $sends, $lastSent, $bufc, $bufWrites, $dos, $savedAtDo, $restarts, $fsmSaves, $roundsCreated
+//@   modifies $mayWrite, $initEvent, $vSender, $vData, $vSig, $vRound, $fx, $sends, $lastSent, $bufc, $bufWrites, $dos, $savedAtDo, $restarts, $fsmSaves
 //@   loop 0 invariant $mayWrite && s.SkipCommKeysVerification
 //@   loop 0 invariant req.Messages == $range
 //@   loop 0 invariant[C20.replay.stop] forall j int :: 0 <= j && j <= $i ==> req.Messages[j].Event != "event_signing_start"
@@ -285,7 +278,7 @@ package node
 //@   requires s != nil && operation != nil
 //@   prologue $mayWrite = true
 //@   modifies *
-//@   modifies $initEvent, $fx, $sends, $lastSent, $stored, $pend, $retired, $dos, $savedAtDo, $restarts, $fsmSaves, $roundsCreated
+//@   modifies $initEvent, $fx, $sends, $lastSent, $stored, $pend, $retired, $dos, $savedAtDo, $restarts, $fsmSaves
 //@   loop 0 invariant $sends == old($sends) && unchanged("BaseNodeService.userName", "types.Operation.ID", "types.Operation.Type", "types.Operation.Payload", "types.Operation.ResultMsgs", "types.Operation.Event", "[]byte")
 //@   loop 0 invariant $stored != nil && $stored != operation && ($stored.ID in $pend)
 //@   loop 0 invariant forall j int :: 0 <= j && j <= $i ==> operation.ResultMsgs[j].SenderAddr == s.userName && content(operation.ResultMsgs[j].Signature) == edSign(keyOf(s.userName), content(operation.ResultMsgs[j].Data))
@@ -322,7 +315,7 @@ package node
 //@   nosafety
 //@   requires s != nil
 //@   modifies *
-//@   modifies $mayWrite, $initEvent, $vSender, $vData, $vSig, $vRound, $fx, $sends, $lastSent, $stored, $pend, $retired, $handledNext, $bufc, $bufWrites, $dos, $savedAtDo, $restarts, $fsmSaves, $roundsCreated, $offLoads, $offLoaded, $loadsAtFetch, $offsetSaves, $fetched, $savesAtFetch
+//@   modifies $mayWrite, $initEvent, $vSender, $vData, $vSig, $vRound, $fx, $sends, $lastSent, $stored, $pend, $retired, $handledNext, $bufc, $bufWrites, $dos, $savedAtDo, $restarts, $fsmSaves, $offLoads, $offLoaded, $loadsAtFetch, $offsetSaves, $fetched, $savesAtFetch
 //@   prologue $fetched = 0
 //@   prologue $savesAtFetch = $offsetSaves
 //@   prologue $loadsAtFetch = $offLoads
@@ -372,7 +365,7 @@ package node
 //@   nosafety
 //@   requires s != nil && dto != nil
 //@   modifies *
-//@   modifies $mayWrite, $initEvent, $fx, $sends, $lastSent, $stored, $pend, $retired, $dos, $savedAtDo, $restarts, $fsmSaves, $roundsCreated
+//@   modifies $mayWrite, $initEvent, $fx, $sends, $lastSent, $stored, $pend, $retired, $dos, $savedAtDo, $restarts, $fsmSaves
 //@   assert@call executeOperation[C15.dto] operation.ID == dto.ID && string(operation.Type) == dto.Type && operation.Payload == dto.Payload && operation.ResultMsgs == dto.ResultMsgs && operation.DKGIdentifier == dto.DkgID && operation.To == dto.To && operation.Event == dto.Event && operation.ExtraData == dto.ExtraData
 
 // approving an invitation answers only an operation of the invitation type, in the name of the participant whose
@@ -381,7 +374,7 @@ package node
 //@   nosafety
 //@   requires s != nil && dto != nil
 //@   modifies *
-//@   modifies $mayWrite, $initEvent, $fx, $sends, $lastSent, $stored, $pend, $retired, $dos, $savedAtDo, $restarts, $fsmSaves, $roundsCreated, $bufc
+//@   modifies $mayWrite, $initEvent, $fx, $sends, $lastSent, $stored, $pend, $retired, $dos, $savedAtDo, $restarts, $fsmSaves, $bufc
 //@   assert@call executeOperation[C15.approve] string(operation.Type) == "state_sig_proposal_await_participants_confirmations" && loc(pid) != -1 && operation.Event == "event_sig_proposal_confirm_by_participant" && len(operation.ResultMsgs) >= 1
 
 // ---- the remaining entry points of the local API: whatever the (bound and validated) request body holds, the node
